@@ -42,3 +42,15 @@ Example ex_conv : torch_conv_params 2 [2] [1] [1; 2] [0] = Some ([2; 2], [1; 1],
   /\ aten_convnd_attrs 2 [2; 1] [1; 0] [1; 1] false = Some ([2; 1], [1; 0; 1; 0], [1; 1], [])
   /\ conv_out 5 2 2 1 1 1 = 3 /\ torch_conv_out 5 2 2 1 1 = 3 /\ convT_out 4 2 2 0 0 1 1 = 9 /\ torch_convT_out 4 2 2 0 1 1 = 9.
 Proof. repeat split; reflexivity. Qed.
+
+Example ex_allany_dims_fixed : aten_allany_dims_shape_fixed [2; 3] (Some []) false = Some [2; 3] /\ aten_allany_dims_shape_fixed [] (Some [0]) false = Some []
+  /\ aten_allany_dims_shape_fixed [2; 3; 4] (Some [-1; 0]) false = Some [3].
+Proof. repeat split; reflexivity. Qed.
+Example ex_argmax_fixed : torch_argmax_shape [2; 3] None true = Some [1; 1] /\ aten_argmax_shape_fixed [2; 3] None true = Some [1; 1].
+Proof. split; reflexivity. Qed.
+Example ex_prims_var : torch_prims_var_shape [2; 3; 2] [2; 0] = Some [3] /\ prims_var_shape [2; 3; 2] [2; 0] = Some [3]
+  /\ torch_prims_var_count [2; 3; 2] [2; 0] = Some 4 /\ prims_var_count false [2; 3; 2] [2; 0] = Some 4
+  /\ torch_prims_var_count [2; 3] [] = Some 6 /\ prims_var_count true [2; 3] [] = Some 6
+  /\ prims_var_val false 6 3 3 (-1) = Fin ((6 / 3) * 3 / (3 - -1))%Q /\ torch_var_val 6 3 (-1) = Fin (6 / (3 - -1))%Q
+  /\ prims_var_val true 1 1 1 2 = Inf false.
+Proof. repeat split; reflexivity. Qed.
